@@ -283,6 +283,9 @@ type initScenario struct {
 	// everything.  The role follows the direction of the stream: the library
 	// still is the initiator, with no identity and an empty password.
 	ServerCtor bool `json:"server_ctor,omitempty"`
+	// SharedNeg: the session is built with the process-wide Negotiator whose
+	// configuration function adds the SASL feature in place (lazySharedNegotiator).
+	SharedNeg bool `json:"shared_negotiator,omitempty"`
 
 	// filled in by the run
 	Log      []entry `json:"delivered,omitempty"`
@@ -721,6 +724,7 @@ func genInit(r *rand.Rand) *initScenario {
 	if r.Intn(3) == 0 {
 		sc.Chunk = 1 + r.Intn(40)
 	}
+	sc.SharedNeg = !sc.TLS && r.Intn(6) == 0
 	switch r.Intn(10) {
 	case 0, 1, 2:
 		sc.Script = []string{"L", "L", "L"}
@@ -1001,6 +1005,35 @@ func negotiatorFor(f xmpp.StreamFeature) xmpp.Negotiator {
 	})
 }
 
+// lazyShared is one Negotiator for all the sessions of this process that ask
+// for it, with a configuration function of the "fill in what is missing" kind:
+// it is handed the previous configuration, adds the session's SASL feature if
+// there is none yet (in place, as the documentation of NewNegotiator allows)
+// and returns it.  Every session starts from the Negotiator's default
+// configuration, which has no features: what an earlier session added to "its"
+// configuration is not a later session's.
+var lazyShared struct {
+	once    sync.Once
+	neg     xmpp.Negotiator
+	pending xmpp.StreamFeature // the feature of the session being established (one at a time)
+}
+
+func lazySharedNegotiator(f xmpp.StreamFeature) xmpp.Negotiator {
+	lazyShared.once.Do(func() {
+		lazyShared.neg = xmpp.NewNegotiator(func(s *xmpp.Session, prev *xmpp.StreamConfig) xmpp.StreamConfig {
+			if prev == nil {
+				return xmpp.StreamConfig{}
+			}
+			if len(prev.Features) == 0 {
+				prev.Features = append(prev.Features, lazyShared.pending)
+			}
+			return *prev
+		})
+	})
+	lazyShared.pending = f
+	return lazyShared.neg
+}
+
 func runInitiator(c *core.Case, sc *initScenario) {
 	c.Sample(sc)
 	c.Count("init_cases", 1)
@@ -1062,8 +1095,13 @@ func runInitiator(c *core.Case, sc *initScenario) {
 		if sc.NoDeadline {
 			rw = bufconn.NoDeadline{C: conn}
 		}
+		neg := negotiatorFor(feat)
+		if sc.SharedNeg {
+			neg = lazySharedNegotiator(feat)
+			c.Count("init_cases_on_the_process_wide_negotiator_with_an_in_place_configuration_function", 1)
+		}
 		c.Guard("NewSession", func() {
-			s, err = xmpp.NewSession(ctx, location, origin, rw, xmpp.Secure, negotiatorFor(feat))
+			s, err = xmpp.NewSession(ctx, location, origin, rw, xmpp.Secure, neg)
 		})
 		conn.Close()
 	} else {
@@ -2074,7 +2112,7 @@ func Prop() *core.Prop {
 		"init_channel_binding_matched", "recv_accept_PLAIN", "recv_perm_true", "recv_perm_false",
 		"init_cancel_cases_no_deadline_transport", "init_cancel_cases_deadline_transport", "init_cancel_fired",
 		"init_cancel_fired_multi_step_mechanism",
-		"init_fixed_payload_table_cases", "init_fixed_mechanisms_layout_cases", "init_enumerated", "init_cases_feature_from_SASLServer",
+		"init_fixed_payload_table_cases", "init_fixed_mechanisms_layout_cases", "init_enumerated", "init_cases_feature_from_SASLServer", "init_cases_on_the_process_wide_negotiator_with_an_in_place_configuration_function",
 		"recv_cases_without_permission_callback_saslserver", "recv_cases_without_permission_callback_sasl",
 		"init_fixed_failure_then_more", "recv_accept_" + testMechName, "recv_exchanges_of_16_or_more_elements",
 		"init_features_sasl_extra_after", "init_features_sasl_extra_before", "init_features_sasl_extra_both",
